@@ -15,6 +15,7 @@ The reference codec below is written from RFC 6455 section 5.2/5.3 and is checke
 examples (section 5.7) at the start of every shard.
 """
 import hashlib
+import json
 import itertools
 import struct
 
@@ -438,28 +439,57 @@ def describe_expected(exp):
     return "[" + ", ".join("%s:%s" % (OPNAME[op], brief(text if text is not None else data)) for op, data, text in exp) + "]"
 
 
-def deliver(chunks, expected):
+def deliver(chunks, expected, close_after=None, peer=None):
     """feed the reads to a fresh connection; -> None when the endpoint saw exactly the expected frames,
-    otherwise a description of the first discrepancy"""
-    conn = Conn()
-    seen = 0
-    for i, ch in enumerate(chunks):
+    otherwise a description of the first discrepancy.
+    close_after: the application calls close() on the handler after that many reads (the client's frames that are
+    still in flight - its Close reply included - are client frames all the same).
+    peer: (chunks, expected, order, abandon) - a second connection that is open at the same time; order is a list of
+    0/1 choosing whose read comes next (cycled), abandon > 0 drops the second connection after that many of its reads
+    (mid-frame, typically) and it is then not judged"""
+    conns = [[Conn(), list(chunks), list(expected), 0, 0]]
+    order = [0]
+    abandon = 0
+    if peer is not None:
+        conns.append([Conn(), list(peer[0]), list(peer[1]), 0, 0])
+        order = list(peer[2]) or [0, 1]
+        abandon = peer[3]
+    k = 0
+    while any(c[3] < len(c[1]) for c in conns):
+        who = order[k % len(order)] if len(conns) > 1 else 0
+        k += 1
+        if conns[who][3] >= len(conns[who][1]):
+            who = 1 - who
+        if who == 1 and abandon and conns[1][3] >= abandon:
+            conns[1][3] = len(conns[1][1])          # the connection is gone; its remaining bytes never arrive
+            continue
+        c = conns[who]
+        conn, chs, exp, i, seen = c
+        ch = chs[i]
+        tag = "" if len(conns) == 1 else "connection %s: " % "AB"[who]
         try:
             conn.channel.dataReceived(ch)
         except Exception as e:  # noqa - well-formed input: nothing may escape dataReceived
-            return "read %d of %d (%d bytes) raised %s(%s) after %d frame(s) were delivered" % (
-                i + 1, len(chunks), len(ch), e.__class__.__name__, e, len(conn.frames()))
+            return "%sread %d of %d (%d bytes) raised %s(%s) after %d frame(s) were delivered" % (
+                tag, i + 1, len(chs), len(ch), e.__class__.__name__, e, len(conn.frames()))
+        c[3] = i + 1
+        if who == 0 and close_after is not None and c[3] == close_after:
+            conn.handler.close()
         evs = conn.frames()
-        if len(evs) > len(expected):
-            return "after read %d of %d: %d frames delivered but only %d sent: %s" % (i + 1, len(chunks), len(evs), len(expected), describe(evs))
+        if len(evs) > len(exp):
+            return "%safter read %d of %d: %d frames delivered but only %d sent: %s" % (tag, i + 1, len(chs), len(evs), len(exp), describe(evs))
         for j in range(seen, len(evs)):
-            if not event_matches(evs[j], expected[j]):
-                return "after read %d of %d: frame %d delivered as %s, sent %s" % (
-                    i + 1, len(chunks), j, describe([evs[j]]), describe_expected([expected[j]]))
-        seen = len(evs)
-    if seen != len(expected):
-        return "after the last read only %d of %d frames were delivered: %s, sent %s" % (
-            seen, len(expected), describe(conn.frames()), describe_expected(expected))
+            if not event_matches(evs[j], exp[j]):
+                return "%safter read %d of %d: frame %d delivered as %s, sent %s" % (
+                    tag, i + 1, len(chs), j, describe([evs[j]]), describe_expected([exp[j]]))
+        c[4] = len(evs)
+    for who, (conn, chs, exp, i, seen) in enumerate(conns):
+        if who == 1 and abandon:
+            continue
+        if seen != len(exp):
+            tag = "" if len(conns) == 1 else "connection %s: " % "AB"[who]
+            return "%safter the last read only %d of %d frames were delivered: %s, sent %s" % (
+                tag, seen, len(exp), describe(conn.frames()), describe_expected(exp))
     return None
 
 
@@ -495,8 +525,26 @@ def check_stream(ctx, frames, cutspec, case=None):
         if bounds[bi] < s:
             joins = True
             break
-    problem = deliver(chunks, expected)
-    if problem is not None:
+    close_after = cutspec.get("close_after")
+    peer = None
+    if cutspec.get("peer"):
+        pr = cutspec["peer"]
+        pw, pexp, _, _ = encode_stream(pr["frames"])
+        pstream = b"".join(pw)
+        peer = (chunks_of(pstream, cut_positions(pr["cuts"], len(pstream))), pexp, pr.get("order", [0, 1]), pr.get("abandon", 0))
+    problem = deliver(chunks, expected, close_after, peer)
+    if problem is not None and (close_after is not None or peer is not None) and deliver(chunks, expected) is None:
+        lens = [(OPNAME[f["op"]], f["len"]) for f in frames]
+        shown = cuts if len(cuts) <= 12 else cuts[:12] + ["...(%d cuts)" % len(cuts)]
+        if close_after is not None and deliver(chunks, expected, None, peer) is None:
+            ctx.violation("ws-frames-lost-after-close", "frames %s (%d bytes) read in %d chunk(s), cuts at %s, the application calls close() "
+                          "after read %d: %s; without the close() every frame is delivered" % (lens, total, len(chunks), shown, close_after, problem), case)
+        else:
+            ctx.violation("ws-connections-interfere", "frames %s (%d bytes) read in %d chunk(s), cuts at %s, while a second connection "
+                          "receives %s (reads interleaved %s%s): %s; alone, every frame of the connection is delivered" % (
+                              lens, total, len(chunks), shown, [(OPNAME[f["op"]], f["len"]) for f in cutspec["peer"]["frames"]],
+                              cutspec["peer"].get("order"), ", abandoned after %d reads" % peer[3] if peer[3] else "", problem), case)
+    elif problem is not None:
         aligned = deliver(wires, expected)
         lens = [(OPNAME[f["op"]], f["len"]) for f in frames]
         shown = cuts if len(cuts) <= 12 else cuts[:12] + ["...(%d cuts)" % len(cuts)]
@@ -608,15 +656,16 @@ MAX_READS = 20000
 
 
 @st.composite
-def stream_strategy(draw):
+def stream_strategy(draw, extras=True):
     n = draw(st.integers(1, 5))
+    close_anywhere = extras and draw(st.integers(0, 3)) == 0
     data_len = st.one_of(st.sampled_from(SMALL_LENS), st.sampled_from(SMALL_LENS), st.integers(0, 20), st.integers(0, 300),
                          st.integers(0, 2000), st.sampled_from(BIG_LENS), st.integers(0, MAXLEN))
     ctl_len = st.one_of(st.sampled_from([0, 1, 2, 5, 124, 125]), st.integers(0, 125))
     frames = []
     for i in range(n):
         ops = [TEXT, BINARY, TEXT, BINARY, PING, PONG]
-        if i == n - 1:
+        if i == n - 1 or close_anywhere:
             ops.append(CLOSE)
         op = draw(st.sampled_from(ops))
         if op in (TEXT, BINARY):
@@ -655,7 +704,38 @@ def stream_strategy(draw):
         if mode in ("struct", "mixed") and pts:
             at += draw(st.lists(st.sampled_from(pts), min_size=1, max_size=10))
         cutspec = {"at": sorted(set(at))}
+    if extras:
+        nreads = len(cut_positions(cutspec, total)) + 1
+        x = draw(st.integers(0, 5))
+        if x == 0 and nreads > 1:
+            # the application closes the connection while client frames are still on their way
+            cutspec["close_after"] = draw(st.integers(1, nreads - 1))
+        elif x == 1:
+            pframes, pcuts, _ = draw(stream_strategy(extras=False))
+            pcuts = {"every": max(pcuts["every"], 4)} if "every" in pcuts else pcuts
+            ptotal = sum(len(ref_header(1, f["op"], True, b"\0\0\0\0", f["len"])) + f["len"] for f in pframes)
+            preads = len(cut_positions(pcuts, ptotal)) + 1
+            abandon = 0
+            if draw(st.booleans()):
+                # the other connection goes away in the middle of its stream
+                abandon = draw(st.integers(1, preads)) if preads > 1 else 0
+                if abandon == 0 and ptotal > 1:
+                    pcuts = {"at": [draw(st.integers(1, ptotal - 1))]}
+                    abandon = 1
+            cutspec["peer"] = {"frames": pframes, "cuts": pcuts, "abandon": abandon,
+                               "order": draw(st.lists(st.integers(0, 1), min_size=1, max_size=6))}
     return frames, cutspec, mode
+
+
+def brief_cuts(cutspec):
+    out = dict(cutspec)
+    if "at" in out and len(out["at"]) > 16:
+        out["at"] = out["at"][:16] + ["..."]
+    if "peer" in out:
+        pr = out["peer"]
+        out["peer"] = {"frames": [(OPNAME[f["op"]], f["len"]) for f in pr["frames"]], "cuts": brief_cuts(pr["cuts"]),
+                       "abandon": pr["abandon"], "order": pr["order"]}
+    return out
 
 
 def run_hyp_stream(spec, ctx):
@@ -674,11 +754,17 @@ def run_hyp_stream(spec, ctx):
             ctx.label("stream-joins-frames")
         if any(f["len"] > 65535 for f in frames):
             ctx.label("stream-has-64bit-frame")
+        if any(f["op"] == CLOSE for f in frames[:-1]):
+            ctx.label("stream-frames-after-client-close")
+        if "close_after" in cutspec:
+            ctx.label("stream-application-closes-mid-stream")
+        if "peer" in cutspec:
+            ctx.label("stream-second-connection-abandoned" if cutspec["peer"]["abandon"] else "stream-second-connection")
         if sp or jn:
             ctx.nt(("stream", tuple((f["op"], f["len"], f["key"], f["pat"], f["prefix"]) for f in frames),
-                    tuple(sorted(cutspec.items())) if "every" in cutspec else tuple(cutspec["at"])))
+                    json.dumps(cutspec, sort_keys=True)))
         ctx.sample({"part": "stream", "frames": [(OPNAME[f["op"]], f["len"]) for f in frames],
-                    "cuts": cutspec if "every" in cutspec or len(cutspec["at"]) <= 16 else {"at": cutspec["at"][:16] + ["..."]}})
+                    "cuts": brief_cuts(cutspec)})
 
     test()
 
